@@ -4,6 +4,8 @@
     and bitpack's unpack_int32_purego.go).  Control flow of the Go code, one
     loop iteration per run; [fuel] bounds the number of iterations by the
     number of input bytes (every iteration consumes at least the header).
+    The [pinned] flag selects the behaviour before the repairs 70434b6
+    (decodeInt32) and 75827ad (decodeBits), kept for the [_refuted] witnesses.
     No proofs here (Enc/GoDecRleProofs.v). *)
 From Coq Require Import List NArith ZArith Lia Bool Arith.
 From PQ Require Import Base.Bytes Base.Varint Base.BitPack Enc.GoDecBase.
@@ -16,16 +18,32 @@ Definition max_count : N := max_int32.
 (** decodeBytesBitpackDefault(dst, src, count, bitWidth): per group of 8
     values, [byteCount = ByteCount(8*bitWidth) = bitWidth] bytes are copied
     into an 8-byte word; value k is [byte((word >> (k*bitWidth)) & bitMask)]. *)
-Fixpoint go_unpack_groups (w : N) (groups : nat) (src : bytes) : list N :=
-  match groups with
-  | O => []
-  | S g =>
-      go_unpack 8 w 8 (of_le (firstn (N.to_nat w) src))
-        ++ go_unpack_groups w g (skipn (N.to_nat w) src)
-  end.
+Definition go_unpack_groups (w : N) (groups : nat) (src : bytes) : list N :=
+  go_unpack_chunks 8 w groups src.
 
-(** decodeBytes(dst, src, bitWidth), the loop [for i := 0; i < len(src); ].
-    [src] is [src[i:]]. *)
+(** decodeBytes(dst, src, bitWidth), the loop [for i := 0; i < len(src); ]:
+    one iteration after the header [u] was read; [r] is [src[i:]] behind the
+    header, [rec] the rest of the loop. *)
+Definition go_bytes_run (rec : bytes -> gres (list N)) (w u : N) (r : bytes) : gres (list N) :=
+  let count := u / 2 in                                   (* uint(u>>1) *)
+  if count =? 0 then rec r                                (* continue *)
+  else if max_count <? count then GErr
+  else if N.odd u then
+    (* count *= 8; j := i + ByteCount(count*bitWidth); if j > len(src) error *)
+    let nb := (count * 8 * w + 7) / 8 in
+    if negb (fits_len nb r) then GErr
+    else
+      let n := N.to_nat nb in
+      gbind (rec (skipn n r))
+            (fun rest => GOk (go_unpack_groups w (N.to_nat count) (firstn n r) ++ rest))
+  else
+    (* if bitWidth != 0 && (i+1) > len(src) error *)
+    if negb (w =? 0) && negb (fits_len 1 r) then GErr
+    else
+      let word := if w =? 0 then 0 else hd 0 r in
+      let r' := if w =? 0 then r else tl r in
+      gbind (rec r') (fun rest => GOk (repeat word (N.to_nat count) ++ rest)).
+
 Fixpoint go_decode_bytes (fuel : nat) (w : N) (src : bytes) : gres (list N) :=
   match fuel with
   | O => match src with [] => GOk [] | _ => GErr end     (* not reached: fuel = len(src) *)
@@ -35,26 +53,7 @@ Fixpoint go_decode_bytes (fuel : nat) (w : N) (src : bytes) : gres (list N) :=
       | _ =>
           match go_uvarint src with
           | None => GErr                                  (* n == 0 or n < 0 *)
-          | Some (u, r) =>
-              let count := u / 2 in                       (* uint(u>>1) *)
-              if count =? 0 then go_decode_bytes f w r    (* continue *)
-              else if max_count <? count then GErr
-              else if N.odd u then
-                (* count *= 8; j := i + ByteCount(count*bitWidth); if j > len(src) error *)
-                let nb := (count * 8 * w + 7) / 8 in
-                if negb (fits_len nb r) then GErr
-                else
-                  let n := N.to_nat nb in
-                  gbind (go_decode_bytes f w (skipn n r))
-                        (fun rest => GOk (go_unpack_groups w (N.to_nat count) (firstn n r) ++ rest))
-              else
-                (* if bitWidth != 0 && (i+1) > len(src) error *)
-                if negb (w =? 0) && negb (fits_len 1 r) then GErr
-                else
-                  let word := if w =? 0 then 0 else hd 0 r in
-                  let r' := if w =? 0 then r else tl r in
-                  gbind (go_decode_bytes f w r')
-                        (fun rest => GOk (repeat word (N.to_nat count) ++ rest))
+          | Some (u, r) => go_bytes_run (go_decode_bytes f w) w u r
           end
       end
   end.
@@ -65,14 +64,34 @@ Definition go_decode_levels (w : N) (src : bytes) : gres (list N) :=
 
 (** decodeInt32(dst, src, bitWidth); values are 32-bit patterns.
 
-    Bit-packed run: [length := int(count * bitWidth)], the destination is
-    resized, then [in := src[i : i+length]] WITHOUT a length check: a panic
-    when the run is longer than what is left (with spare capacity behind
-    [src], Go decodes the bytes found there).  [bitpack.Unpack] then decodes
-    [8*count] values from [in] (padded; the padding is never part of a value).
-    Run-length run: [j := i + ByteCount(bitWidth)] is checked; the value is
-    read little-endian from [src[i:j]] into 4 bytes. *)
-Fixpoint go_decode_int32 (fuel : nat) (w : N) (src : bytes) : gres (list N) :=
+    Bit-packed run: [length := int(count * bitWidth)];
+    [if length > len(src)-i] error (since 70434b6; before, [in := src[i :
+    i+length]] was taken unchecked: a panic -- or, with spare capacity behind
+    [src], a decode of whatever bytes are found there).  [bitpack.Unpack] then
+    decodes [8*count] values from [in] (padded; the padding is never part of a
+    value).  Run-length run: [j := i + ByteCount(bitWidth)] is checked; the
+    value is read little-endian from [src[i:j]] into 4 bytes. *)
+Definition go_int32_run (pinned : bool) (rec : bytes -> gres (list N)) (w u : N) (r : bytes)
+  : gres (list N) :=
+  let count := u / 2 in
+  if count =? 0 then rec r
+  else if max_count <? count then GErr
+  else if N.odd u then
+    let nb := count * w in
+    if negb (fits_len nb r) then (if pinned then GPanic else GErr)
+    else
+      let n := N.to_nat nb in
+      gbind (rec (skipn n r))
+            (fun rest => GOk (go_unpack_chunks 32 w (N.to_nat count) (firstn n r) ++ rest))
+  else
+    let nb := (w + 7) / 8 in
+    if negb (fits_len nb r) then GErr
+    else
+      let n := N.to_nat nb in
+      gbind (rec (skipn n r))
+            (fun rest => GOk (repeat (of_le (firstn n r)) (N.to_nat count) ++ rest)).
+
+Fixpoint go_decode_int32 (pinned : bool) (fuel : nat) (w : N) (src : bytes) : gres (list N) :=
   match fuel with
   | O => match src with [] => GOk [] | _ => GErr end
   | S f =>
@@ -81,31 +100,17 @@ Fixpoint go_decode_int32 (fuel : nat) (w : N) (src : bytes) : gres (list N) :=
       | _ =>
           match go_uvarint src with
           | None => GErr
-          | Some (u, r) =>
-              let count := u / 2 in
-              if count =? 0 then go_decode_int32 f w r
-              else if max_count <? count then GErr
-              else if N.odd u then
-                let nb := count * w in
-                if negb (fits_len nb r) then GPanic
-                else
-                  let n := N.to_nat nb in
-                  gbind (go_decode_int32 f w (skipn n r))
-                        (fun rest => GOk (go_unpack 32 w (8 * N.to_nat count) (of_le (firstn n r)) ++ rest))
-              else
-                let nb := (w + 7) / 8 in
-                if negb (fits_len nb r) then GErr
-                else
-                  let n := N.to_nat nb in
-                  gbind (go_decode_int32 f w (skipn n r))
-                        (fun rest => GOk (repeat (of_le (firstn n r)) (N.to_nat count) ++ rest))
+          | Some (u, r) => go_int32_run pinned (go_decode_int32 pinned f w) w u r
           end
       end
   end.
 
 (** Encoding.DecodeInt32 *)
 Definition go_decode_int32_top (w : N) (src : bytes) : gres (list N) :=
-  if 32 <? w then GErr else go_decode_int32 (length src) w src.
+  if 32 <? w then GErr else go_decode_int32 false (length src) w src.
+
+Definition go_decode_int32_pinned (w : N) (src : bytes) : gres (list N) :=
+  if 32 <? w then GErr else go_decode_int32 true (length src) w src.
 
 (** DictionaryEncoding.DecodeInt32: the first byte is the bit width *)
 Definition go_decode_dict (src : bytes) : gres (list N) :=
@@ -114,14 +119,75 @@ Definition go_decode_dict (src : bytes) : gres (list N) :=
   | w :: r => go_decode_int32_top w r
   end.
 
-(** decodeBits(dst, src): the destination holds PACKED booleans (8 per byte).
-    A bit-packed run of [count] groups is a copy of [count] bytes.  A
-    run-length run of [count] values appends [ByteCount(count)] whole bytes of
-    0x00 / 0xFF: runs are placed at byte granularity (a run whose count is
-    not a multiple of 8 misaligns everything after it -- Go's encoder never
-    writes one, other writers do).  The repeated value is optional: when the
-    input ends after the header the run is made of zeros. *)
-Fixpoint go_decode_bits (fuel : nat) (src : bytes) : gres bytes :=
+(** decodeBits(dst, src): the destination holds PACKED booleans (8 per byte);
+    [bits] values have been written ([base] = 0: DecodeBoolean passes
+    [dst[:0]]), [shift := bits % 8] is the position of the next value in the
+    last byte.
+
+    Bit-packed run of [count] groups = [count] bytes: appended as they are
+    when [shift = 0]; otherwise [dst[last] &= 1<<shift - 1] and for each byte
+    [b]: [dst[last] |= b << shift; dst = append(dst, b >> (8-shift)); last++].
+    Run-length run of [count] values: the unfinished byte is completed with
+    [(dst[offset-1] & mask) | (word &^ mask)], then [dst] is resized to
+    [ByteCount(bits + count)] bytes and [dst[offset:]] filled with the word
+    0x00 / 0xFF.  The repeated value is optional: when the input ends after
+    the header the run is made of zeros. *)
+Definition go_shl8 (b shift : N) : N := (b * 2 ^ shift) mod 256.   (* byte(b << shift) *)
+
+Fixpoint go_append_shifted (shift : N) (init : bytes) (lastb : N) (blk : bytes) : bytes :=
+  match blk with
+  | [] => init ++ [lastb]
+  | b :: r =>
+      go_append_shifted shift (init ++ [N.lor lastb (go_shl8 b shift)]) (b / 2 ^ (8 - shift)) r
+  end.
+
+Definition go_bits_run (rec : bytes -> bytes -> N -> gres bytes) (u : N) (r dst : bytes) (bits : N)
+  : gres bytes :=
+  let count := u / 2 in
+  if count =? 0 then rec r dst bits
+  else if max_count <? count then GErr
+  else
+    let shift := bits mod 8 in
+    if N.odd u then
+      if negb (fits_len count r) then GErr
+      else
+        let n := N.to_nat count in
+        let blk := firstn n r in
+        let dst' :=
+          if shift =? 0 then dst ++ blk
+          else go_append_shifted shift (removelast dst) (last dst 0 mod 2 ^ shift) blk in
+        rec (skipn n r) dst' (bits + 8 * count)
+    else
+      let word := match r with
+                  | [] => 0
+                  | b :: _ => if N.odd b then 255 else 0
+                  end in
+      let dst1 :=
+        if shift =? 0 then dst
+        else removelast dst
+               ++ [N.lor (last dst 0 mod 2 ^ shift) (N.ldiff word (2 ^ shift - 1))] in
+      let bits' := bits + count in
+      let len' := N.to_nat ((bits' + 7) / 8) in
+      rec (tl r) (dst1 ++ repeat word (len' - length dst1)) bits'.
+
+Fixpoint go_decode_bits (fuel : nat) (src dst : bytes) (bits : N) : gres bytes :=
+  match fuel with
+  | O => match src with [] => GOk dst | _ => GErr end
+  | S f =>
+      match src with
+      | [] => GOk dst
+      | _ =>
+          match go_uvarint src with
+          | None => GErr
+          | Some (u, r) => go_bits_run (go_decode_bits f) u r dst bits
+          end
+      end
+  end.
+
+(** the same before 75827ad: no bit position; a run-length run of [count]
+    values appends [ByteCount(count)] whole bytes, so a run whose count is
+    not a multiple of 8 misaligns everything after it *)
+Fixpoint go_decode_bits_pinned (fuel : nat) (src : bytes) : gres bytes :=
   match fuel with
   | O => match src with [] => GOk [] | _ => GErr end
   | S f =>
@@ -132,33 +198,39 @@ Fixpoint go_decode_bits (fuel : nat) (src : bytes) : gres bytes :=
           | None => GErr
           | Some (u, r) =>
               let count := u / 2 in
-              if count =? 0 then go_decode_bits f r
+              if count =? 0 then go_decode_bits_pinned f r
               else if max_count <? count then GErr
               else if N.odd u then
                 if negb (fits_len count r) then GErr
                 else
                   let n := N.to_nat count in
-                  gbind (go_decode_bits f (skipn n r)) (fun rest => GOk (firstn n r ++ rest))
+                  gbind (go_decode_bits_pinned f (skipn n r)) (fun rest => GOk (firstn n r ++ rest))
               else
                 let word := match r with
                             | [] => 0
                             | b :: _ => if N.odd b then 255 else 0
                             end in
-                gbind (go_decode_bits f (tl r))
+                gbind (go_decode_bits_pinned f (tl r))
                       (fun rest => GOk (repeat word (N.to_nat ((count + 7) / 8)) ++ rest))
           end
       end
   end.
 
 (** Encoding.DecodeBoolean: 4-byte little-endian length prefix *)
-Definition go_decode_boolean (src : bytes) : gres bytes :=
+Definition go_decode_boolean_with (dec : bytes -> gres bytes) (src : bytes) : gres bytes :=
   if (length src =? 4)%nat then GOk []
   else if (length src <? 4)%nat then GErr
   else
     let n := of_le (firstn 4 src) in
     let r := skipn 4 src in
     if negb (fits_len n r) then GErr
-    else let body := firstn (N.to_nat n) r in go_decode_bits (length body) body.
+    else dec (firstn (N.to_nat n) r).
+
+Definition go_decode_boolean : bytes -> gres bytes :=
+  go_decode_boolean_with (fun body => go_decode_bits (length body) body [] 0).
+
+Definition go_decode_boolean_pinned : bytes -> gres bytes :=
+  go_decode_boolean_with (fun body => go_decode_bits_pinned (length body) body).
 
 (** * Size of what a decoder would allocate (used by the differential runs to
     skip hostile streams before handing them to Go or to the extracted
@@ -188,6 +260,32 @@ Fixpoint rle_cost (fuel : nat) (go_walk : bool) (kind w : N) (src : bytes) : N :
           end
       end
   end.
+
+(** does the walk meet a run header announcing zero values?  (Go's decoders
+    skip such a header without reading a value; the format's grammar gives a
+    run-length run its value even then: the two walks diverge from there) *)
+Fixpoint rle_empty_run (fuel : nat) (go_walk : bool) (kind w : N) (src : bytes) : bool :=
+  match fuel with
+  | O => false
+  | S f =>
+      match src with
+      | [] => false
+      | _ =>
+          match (if go_walk then go_uvarint src else uvarint_dec src) with
+          | None => false
+          | Some (u, r) =>
+              let count := u / 2 in
+              if count =? 0 then true
+              else
+                let nb := if N.odd u then (if kind =? 2 then count else count * w)
+                          else (if kind =? 2 then 1 else (w + 7) / 8) in
+                if fits_len nb r then rle_empty_run f go_walk kind w (skipn (N.to_nat nb) r) else false
+          end
+      end
+  end.
+
+Definition go_rle_empty_run (kind w : N) (src : bytes) : bool :=
+  rle_empty_run (length src) true kind w src || rle_empty_run (length src) false kind w src.
 
 Definition go_rle_cost (kind w : N) (src : bytes) : N := rle_cost (length src) true kind w src.
 Definition spec_rle_cost (kind w : N) (src : bytes) : N := rle_cost (length src) false kind w src.
